@@ -500,6 +500,49 @@ def run(ctx, with_contradiction=True):
     rep.check(bool(de) and any(callee_decl(t).endswith('deserialize_bytes') for _, t in ctx.calls(de[0])), 'R-C15-4', 'R-C15-4/deserialize', 'Deserialize requests bytes (deserialize_bytes)',
               'Deserialize does not request bytes', ctx.where(de[0]) if de else None)
 
+    # .. and they add nothing of their own: the acceptance set of the serde form is that of the byte form only if the visitor hands the
+    # decoder the very bytes it was given and has no rejection besides the decoder's, and the serializer emits exactly the encoder's bytes
+    def _peel(t):
+        while True:
+            while t.tag in ('mut', 'via'):
+                t = t[1] if t.tag == 'mut' else t[2]
+            if t.tag == 'elemat' and 'RangeFull' in canon(t[2]):
+                t = t[1]
+            elif t.tag == 'call' and t[1].split('::')[-1] in ('as_slice', 'deref', 'as_ref', 'borrow', 'as_bytes') and len(t[2]) == 1:
+                t = t[2][0]
+            elif t.tag in ('ref', 'deref') and len(t.args) == 1:
+                t = t[1]
+            else:
+                return t
+    for nm, lst, callee in (('visit_bytes', vis, dec), ('serialize', ser, enc), ('deserialize', de, None)):
+        if not lst:
+            continue
+        b0 = lst[0]
+        extra = [r for r in guard_table(ctx, b0) if not all(a[0] == 'succ' and callee is not None and a[1].startswith(callee.path.split('::')[-1] + '(') for a in r['atoms'])
+                 and not all(a[0] == 'succ' and ('serialize_bytes(' in a[1] or 'deserialize_bytes(' in a[1]) for a in r['atoms'])]
+        rep.check(not extra, 'R-C15-4', 'R-C15-4/%s/no-other-rejection' % nm, '%s has no rejection of its own' % nm,
+                  '%s rejects on a condition of its own, so the serde form and the byte form accept different strings: %s' % (
+                      nm, [(list(r['ctx']), r['atoms']) for r in extra][:3]), ctx.where(b0, extra[0]['guard'].bb) if extra else ctx.where(b0))
+        if callee is None:
+            continue
+        sites = [(bb, t) for bb, t in ctx.calls(b0) if callee_name(t) == callee.path]
+        if len(sites) != 1:
+            continue
+        if nm == 'visit_bytes':
+            arg = _peel(ctx.args(b0, sites[0][0])[0])
+            byte_params = [i for i in range(1, b0.argc + 1) if b0.local_ty(i).replace("'de ", '').replace("'_ ", '') in ('&[u8]',)]
+            okb = arg.tag == 'param' and arg[2] in byte_params
+            rep.check(okb, 'R-C15-4', 'R-C15-4/visit_bytes/whole-input', 'the decoder is given the visitor\'s input as it is',
+                      'the decoder is given %s, not the visitor\'s input' % short(arg, 120), ctx.where(b0, sites[0][0]))
+        else:
+            outs = [(bb, t) for bb, t in ctx.calls(b0) if callee_decl(t).endswith('serialize_bytes')]
+            if len(outs) == 1:
+                a_ = ctx.args(b0, outs[0][0])
+                payload = _peel(a_[-1])
+                okb = payload.tag == 'call' and payload[1] == callee.path and len(payload[2]) == 1 and _peel(payload[2][0]).tag == 'param'
+                rep.check(okb, 'R-C15-4', 'R-C15-4/serialize/whole-output', 'serialize_bytes is given the encoder\'s output as it is',
+                          'serialize_bytes is given %s, not the encoder\'s output' % short(a_[-1], 120), ctx.where(b0, outs[0][0]))
+
     # ---- R-C15-5 contradiction rule
     if not with_contradiction:
         return
